@@ -77,12 +77,13 @@ def sweep_impl(rep, tier, seed):
                 ref = np.array([fn(x[i * f:(i + 1) * f].astype(np.float64)) for i in range(g)])
                 rep.check(len(got) == g and close(got, ref), "downsample_1d is not the mean/median of each full group",
                           function="core/stats.py::downsample_1d", input=inp)
-            ts = TimeSeries(x.copy(), hdr(n))
-            d = ts.downsample(f)
-            ref = np.array([np.mean(x[i * f:(i + 1) * f].astype(np.float64)) for i in range(n // f)])
-            rep.check(close(d.data, ref) and d.header.nsamples == n // f and abs(d.header.tsamp - 1e-3 * f) < 1e-12,
-                      "TimeSeries.downsample data/header", function="timeseries.py::TimeSeries.downsample",
-                      input=dict(n=n, factor=f, seed=seed))
+            for method, fn in (("mean", np.mean), ("median", np.median)):
+                ts = TimeSeries(x.copy(), hdr(n))
+                d = ts.downsample(f, filter_method=method)
+                ref = np.array([fn(x[i * f:(i + 1) * f].astype(np.float64)) for i in range(n // f)])
+                rep.check(close(d.data, ref) and d.header.nsamples == n // f and abs(d.header.tsamp - 1e-3 * f) < 1e-12,
+                          "TimeSeries.downsample data/header", function="timeseries.py::TimeSeries.downsample",
+                          input=dict(n=n, factor=f, method=method, seed=seed))
     # ---- 2-D and flattened decimation
     shapes = [(1, 1), (2, 3), (4, 8), (5, 7), (8, 16)] if tier == "quick" else [(1, 1), (2, 3), (3, 2), (4, 8), (5, 7), (8, 16), (9, 31)]
     for (d1, d2) in shapes:
@@ -102,13 +103,14 @@ def sweep_impl(rep, tier, seed):
                               "downsample_2d_flat is not the mean/median of each full tile (row-major)",
                               function="core/kernels.py::downsample_2d_mean_flat" if method == "mean"
                               else "core/stats.py::downsample_2d_flat", input=inp)
-                blk = FilterbankBlock(a.copy(), hdr(d2, d1))
-                out = blk.downsample(ffactor=f1, tfactor=f2)
-                ref = np.array([[np.mean(a[i * f1:(i + 1) * f1, j * f2:(j + 1) * f2].astype(np.float64)) for j in range(d2 // f2)]
-                                for i in range(d1 // f1)]).reshape(d1 // f1, d2 // f2)
-                rep.check(out.data.shape == ref.shape and close(out.data, ref) and out.header.nchans == d1 // f1
-                          and out.header.nsamples == d2 // f2, "FilterbankBlock.downsample data/header",
-                          function="block.py::FilterbankBlock.downsample", input=dict(shape=[d1, d2], factors=[f1, f2], seed=seed))
+                for method, fn in (("mean", np.mean), ("median", np.median)):
+                    blk = FilterbankBlock(a.copy(), hdr(d2, d1))
+                    out = blk.downsample(ffactor=f1, tfactor=f2, filter_method=method)
+                    ref = np.array([[fn(a[i * f1:(i + 1) * f1, j * f2:(j + 1) * f2].astype(np.float64)) for j in range(d2 // f2)]
+                                    for i in range(d1 // f1)]).reshape(d1 // f1, d2 // f2)
+                    rep.check(out.data.shape == ref.shape and close(out.data, ref) and out.header.nchans == d1 // f1
+                              and out.header.nsamples == d2 // f2, "FilterbankBlock.downsample data/header",
+                              function="block.py::FilterbankBlock.downsample", input=dict(shape=[d1, d2], factors=[f1, f2], method=method, seed=seed))
     # ---- linear detrending: least-squares residual
     for n in [1, 2, 3, 5, 16, 101]:
         x = (rng.normal(0, 1, n) + 0.3 * np.arange(n) - 7).astype(np.float32)
